@@ -223,6 +223,10 @@ def install():
 
         def __init__(self, sock):
             super(SimSelector, self).__init__(sock)
+            # every real selector asks the socket for its descriptor (poll.register / kevent / select): a socket that
+            # has already been closed has none
+            if sock.fileno() < 0:
+                raise ValueError("file descriptor cannot be a negative integer (-1)")
             self._sim = cur()
             self._sim.selector_created(self, sock)
 
@@ -441,7 +445,8 @@ class SimSocket(object):
 
     # plumbing
     def fileno(self):
-        return 1000 + self._st.sid
+        # like a real socket object: -1 once it has been closed
+        return -1 if self._st.closed else 1000 + self._st.sid
 
     def setsockopt(self, *a):
         pass
@@ -637,6 +642,10 @@ class Sim(object):
         table = att.get("faults")
         if not table:
             return None
+        # "<op>_from": [k, how] - from the k-th call on EVERY call of that kind fails (a descriptor gone bad)
+        frm = table.get(kind + "_from")
+        if frm and n >= frm[0]:
+            return frm[1]
         per = table.get(kind)
         if not per:
             return None
